@@ -134,3 +134,97 @@ P("C03", "model_checking",
 P("C04", "model_checking",
   "No-panic contracts on every decode function over an arbitrary field oracle with fault injection (all field values, all truncation points) on tiny blocks; header parsing for all 128-bit inputs.",
   BASE_NOTE, ["termination (unwinding bounds only)", "peak memory", "reader front ends beyond FlacChannelReader"])
+
+E = "encode::verif_k::"
+for h, tier in [("k_enc_residuals_n3_o1", "quick"), ("k_enc_residuals_n4_o2", "quick"), ("k_enc_residuals_n4_o3", "thorough")]:
+    add("K-" + h[2:], ["C01", "C02"], E + h, tier=tier, bound="block <= 4, order <= 3; all 32-bit samples, 15-bit coefficients, shifts <= 31",
+        functions=["encode::LpcSubframeParameters::encode_residuals"],
+        contract="encode_residuals: Ok => warm_up == x[..order], res[i] == x[order+i] - ((sum_j x[order+i-1-j]*c[j]) >> shift) exactly; Err(ResidualOverflow) only when such a residual does not fit i32",
+        timeout=600)
+for h in ["k_correlate_fast_ms", "k_correlate_fast_noms"]:
+    add("K-" + h[2:], ["C01", "C02"], E + h, tier="quick", bound="2 PCM frames (the function treats every index alike); bits-per-sample 1..32, all values",
+        functions=["encode::correlate_channels"],
+        contract="correlate_channels: returned slices are (left,right) / (left, l-r) / (l-r, right) / ((l+r)>>1, l-r) for the returned assignment, side channel at bps+1, "
+                 "32-bit input never decorrelated, mid/side only when enabled, all_0 flags truthful", timeout=300)
+for h, tier in [("k_write_res_po0_n2_o0", "thorough"), ("k_write_res_po0_n1_o1_rice2", "quick")]:
+    add("K-" + h[2:], ["C02", "C01"], E + h, tier=tier, bound="<= 2 residuals, max partition order 0; all residual values; log2 under an interval contract",
+        functions=["encode::write_residuals", "encode::write_residuals::Partition::new", "encode::write_residuals::Partition::to_writer",
+                   "encode::write_residuals::best_partitions", "encode::write_residuals::write_partitions", "encode::write_residuals::try_reduce_rice",
+                   "stream::ResidualPartitionHeader::to_writer"],
+        contract="write_residuals (po 0): Ok => fields are method (0, or 1 only with use_rice2), partition order 0, one partition that is the RFC 9639 9.2.7 coding of exactly "
+                 "the residuals given (Rice k < escape: unary(zigzag>>k) + k low bits; escape + width w: every residual fits w bits; width 0: all zero); no residual of -2^31 is ever written; never panics",
+        stubs=["f64::log2 (interval contract: ceil(log2 x) +/- 1)", "f64::ceil (identity on the pre-rounded value)"], timeout=900)
+for h, tier in [("k_enc_select_odd_lpc", "thorough"), ("k_enc_select_odd_nolpc", "quick"), ("k_enc_select_wasted2_lpc", "thorough"), ("k_enc_select_zero", "quick"), ("k_enc_select_odd_12bit", "quick")]:
+    add("K-" + h[2:], ["C19", "C01", "C02"], E + h, tier=tier, bound="concrete 3-sample channels (odd values, common trailing zeros, all zero); candidate sizes from the boundary set {9,10,47,48,49,120} bits, failures symbolic",
+        functions=["encode::encode_subframe", "encode::encode_verbatim_subframe", "encode::encode_constant_subframe"],
+        contract="encode_subframe: result.written() <= 8 + k + n*(bps-k) (the VERBATIM size, k = wasted bits); all-zero => CONSTANT of 8+bps bits; candidates receive samples>>k at bps-k with wasted=k; "
+                 "a candidate is chosen only when strictly smaller than n*(bps-k); both failing => VERBATIM",
+        stubs=["encode::encode_fixed_subframe (writes some bits or fails)", "encode::encode_lpc_subframe (writes some bits or fails)"], timeout=900)
+for h, tier in [("k_enc_fixed_n1", "quick"), ("k_enc_fixed_n3", "quick"), ("k_enc_fixed_n4", "thorough")]:
+    add("K-" + h[2:], ["C02", "C01"], E + h, tier=tier, bound="block <= 4; bits-per-sample 1..32, wasted 0..3, all sample values",
+        functions=["encode::encode_fixed_subframe", "stream::SubframeHeader::to_writer", "stream::SubframeHeaderType::to_writer"],
+        contract="encode_fixed_subframe: header FIXED(k) with wasted-bits field, first k samples at bps bits, then write_residuals(k, r) with r == RFC 9639 9.2.5 residuals "
+                 "of the order-k fixed predictor; k <= 4 and k < n; never panics", stubs=["encode::write_residuals (contract: K-write_res_po0_*)"], timeout=900)
+for h in ["k_enc_lpc_n3_o1"]:
+    add("K-" + h[2:], ["C02", "C01"], E + h, tier="thorough", bound="block 3, order 1; any precision 1..15, shift 0..15, coefficient, samples",
+        functions=["encode::encode_lpc_subframe", "encode::LpcSubframeParameters::best", "encode::LpcSubframeParameters::encode_residuals"],
+        contract="encode_lpc_subframe: header LPC(order), warm-up samples at bps, precision-1 in 4 bits (never 1111), shift in 5 bits >= 0, coefficients at precision, then write_residuals(order, RFC residuals)",
+        stubs=["encode::LpcParameters::best (any quantised parameters)", "encode::write_residuals (contract: K-write_res_po0_*)"], timeout=1500)
+add("K-options_setters", ["C15"], E + "k_options_setters", domain="full", functions=["encode::Options::block_size", "encode::Options::max_lpc_order", "encode::Options::max_partition_order"],
+    contract="Options setters: Ok iff block size >= 16 / LPC order None or 1..=32 / partition order <= 15, value stored; never panic", timeout=300)
+add("K-seek_placeholders", ["C09"], E + "k_seek_placeholders", bound="streams of <= 4 blocks; all block sizes >= 16 and totals",
+    functions=["encode::EncoderSeekPoint::placeholders", "encode::EncoderSeekPoint::range"],
+    contract="placeholders(total, block): points at 0, b, 2b.. < total, length min(b, total-start), one per block", timeout=600)
+add("K-seek_filter", ["C09"], E + "k_seek_filter", bound="4 consecutive points; all block sizes, intervals, rates",
+    functions=["encode::SeekTableInterval::filter"],
+    contract="filter: Frames(n) keeps points 0,n,2n..; Seconds(s) keeps a point iff its frame contains the next multiple of s*rate; strictly ascending; first frame always kept", timeout=600)
+
+M = "metadata::verif_k::"
+add("K-streaminfo_roundtrip", ["C11", "C12", "C15", "C14"], M + "k_streaminfo_roundtrip_all_bits", domain="full",
+    functions=["metadata::Streaminfo::from_reader", "metadata::Streaminfo::to_writer", "metadata::MetadataBlock::bytes"],
+    contract="STREAMINFO, all 272-bit strings: parse never fails or panics, every field equals its RFC 9639 8.2 bit slice (0 => None, depth/channels code+1, zero MD5 => None); "
+             "serialising the parsed value reproduces the 34 bytes; bytes() == 34", timeout=600)
+add("K-block_header_roundtrip", ["C11", "C12"], M + "k_block_header_roundtrip_all_bits", domain="full",
+    functions=["metadata::BlockHeader::from_reader", "metadata::BlockHeader::to_writer", "metadata::BlockType::from_reader", "metadata::BlockType::to_writer", "metadata::BlockSize::from_reader"],
+    contract="metadata block header, all 32-bit strings: Ok iff type <= 6; fields == bit slices; serialises back to the same 4 bytes", timeout=200)
+add("K-seekpoint_roundtrip", ["C11", "C12"], M + "k_seekpoint_roundtrip_all_bits", domain="full",
+    functions=["metadata::SeekPoint::from_reader", "metadata::SeekPoint::to_writer"],
+    contract="seek point, all 144-bit strings: placeholder iff sample number all ones; defined points reproduce byte for byte", timeout=300)
+add("K-seekpoint_build_parse", ["C11"], M + "k_seekpoint_build_parse", domain="full", functions=["metadata::SeekPoint::to_writer", "metadata::SeekPoint::from_reader"],
+    contract="every seek point value that serialises parses back to the same value", timeout=300)
+add("K-seekpoint_is_next", ["C11", "C09"], M + "k_seekpoint_is_next", domain="full", functions=["metadata::SeekPoint::is_next", "metadata::SeekPoint::valid_first"],
+    contract="adjacency rule used by SEEKTABLE reader and writer: strictly ascending sample numbers, placeholders only after defined points", timeout=100)
+add("K-blocksize_arith", ["C11", "C12"], M + "k_blocksize_arith", domain="full",
+    functions=["metadata::BlockSize::checked_add", "metadata::BlockSize::checked_sub", "metadata::BlockSize::try_from", "metadata::Padding::bytes", "metadata::MetadataBlock::total_size"],
+    contract="BlockSize arithmetic exact within 24 bits, None outside; PADDING bytes()/total_size() == size / size + 4", timeout=200)
+add("K-blockbits_counter", ["C11", "C12"], M + "k_blockbits_counter", domain="full", functions=["metadata::BlockBits::checked_add_assign", "metadata::BlockBits::checked_mul", "metadata::BlockBits::try_from"],
+    contract="block bit counter overflows exactly when the byte count leaves 24 bits", timeout=100)
+add("K-metadata_accessors", ["C12"], M + "k_metadata_accessors", bound="sample rate from {0, 1, 44100, 96000, 2^20-1}; all totals, channel counts, depths",
+    functions=["metadata::Metadata::decoded_len", "metadata::Metadata::duration", "metadata::ChannelMask::from_channels"],
+    contract="decoded_len == samples*channels*ceil(bps/8); duration seconds == samples/rate, None for rate 0 or unknown total; default mask has one bit per channel; never panic", timeout=600)
+add("K-picture_png_total", ["C12"], M + "k_picture_png_total", bound="all 33-byte inputs after the PNG signature", functions=["metadata::PictureMetrics::try_png"],
+    contract="try_png never panics; depth == bit depth x channels, width from IHDR", timeout=300)
+add("K-picture_gif_total", ["C12"], M + "k_picture_gif_total", bound="all 11-byte inputs", functions=["metadata::PictureMetrics::try_gif"], contract="try_gif never panics", timeout=300)
+
+B = "byteorder::verif_k::"
+for h in ["k_little_endian_samples", "k_big_endian_samples"]:
+    add("K-" + h[2:], ["C07", "C08"], B + h, domain="full", functions=["byteorder::%s::{i8,i16,i24,i32}_to_bytes / bytes_to_*" % ("LittleEndian" if "little" in h else "BigEndian")],
+        contract="sample <-> byte image: two's complement at the sample's byte width in the stated order; mutual inverses; 24-bit sign extension", timeout=100)
+add("K-byte_order_swap", ["C07", "C08"], B + "k_byte_order_swap", bound="6-byte buffers, widths 1..3", functions=["byteorder::Endianness::bytes_to_le / bytes_to_be"],
+    contract="byte-order conversion reverses each sample's bytes or is the identity", timeout=200)
+
+add("K-counter", ["C09", "C13", "C14"], "verif_k::k_counter_counts_accepted_bytes", domain="full", functions=["Counter::write", "Counter::read"],
+    contract="Counter: count advances by exactly the bytes the inner stream accepted / delivered (short writes!), unchanged on error", timeout=100)
+add("K-crc_rw_fold", ["C02", "C05", "C16"], "crc::verif_k::k_crc_reader_writer_fold", bound="buffers of <= 3 bytes; all contents, short reads/writes, failures",
+    functions=["crc::CrcReader::read", "crc::CrcWriter::write", "crc::CrcReader::into_checksum", "crc::CrcWriter::into_checksum"],
+    contract="CRC reader/writer fold Checksum::update over exactly the bytes transferred; failed transfers leave the checksum unchanged", timeout=200)
+
+for h in ["k_encoder_encode_declared", "k_encoder_encode_undeclared"]:
+    add("K-" + h[2:], ["C09", "C14", "C15"], E + h, domain="full", functions=["encode::Encoder::encode"],
+        contract="Encoder::encode: pushes exactly one seek point (samples written before, bytes written before, frame length), samples_written += frame length, "
+                 "a frame that would pass a declared total => Err(ExcessiveTotalSamples) before anything is written, never seeks (append-only)",
+        stubs=["encode::encode_frame (frame writer; succeeds)"], timeout=200)
+add("K-chan_error_no_stale", ["C14", "C07", "C05"], D + "k_chan_error_no_stale", bound="abstract stream; error at the second block",
+    functions=["decode::FlacChannelReader::fill_buf"],
+    contract="FlacChannelReader::fill_buf: after a failed read the next call fails or delivers the next block; the previously buffered frame is never handed out again",
+    stubs=["decode::Decoder::read_frame (abstract stream, fails once)"], timeout=300)
